@@ -12,6 +12,7 @@ import random
 import numpy as np
 
 from harness import alpha, core, gamma, lattice, shims, tlc, util
+from harness import spell
 
 INV = ["PlateIsCover", "NoUninit", "PoolOK", "Emit"]
 SENTINEL = 1.2345e300
@@ -62,7 +63,7 @@ def run_scenario(chk, sc, cfgseed, fields, axes):
     lim = sc["lim"]
     try:
         with shims.pool_shim(shims.Scheduler(default="random", rng=rng)), shims.poison([SENTINEL, -SENTINEL, float("nan")][cfgseed % 3]), core.quiet():
-            out = Mandoline(src, fields=list(fields), limit_level=lim, serial=bool(sc["serial"]), verbose=0).slice(fformat="return")
+            out = Mandoline(spell.of(src, cfgseed)[0], fields=list(fields), limit_level=lim, serial=bool(sc["serial"]), verbose=0).slice(fformat="return")
     except Exception as e:
         return "mandoline raised %s: %s" % (type(e).__name__, str(e)[:200])
     if alpha.tree_digest(src) != before:
